@@ -320,6 +320,7 @@ def run(chk, facts, tier):
     c06_fields.check_est(chk, facts)
     c06_fields.check_links(chk, facts)
     c06_fields.check_est_set(chk, facts)
+    c06_fields.check_pst(chk, facts)
     # "a JSON policy that is accepted evaluates exactly like the Cedar text it prints as": the printer's structure (shared with C05)
     from rules import C05
     C05.printer(chk, facts)
